@@ -185,10 +185,15 @@ Inject(X, r, f) ==
       [] f.k = "dup"    -> Dl(Dl(X, f.d, Fr("ans", r, 0)), f.d, Fr("ans", r, 1))
       [] f.k = "ansg"   -> Dl(Dl(X, f.d, Fr("ans", r, 0)), f.d, Fr("garb", 0, 0))
       [] f.k = "gans"   -> Dl(Dl(X, f.d, Fr("garb", 0, 0)), f.d, Fr("ans", r, 0))
+      \* an exception frame that arrives when the request is already decided: twice, or behind the answer
+      [] f.k = "dupx"   -> Dl(Dl(X, f.d, Fr("exc", r, f.x)), f.d, Fr("exc", r, f.x))
+      [] f.k = "ansx"   -> Dl(Dl(X, f.d, Fr("ans", r, 0)), f.d, Fr("exc", r, f.x))
       [] f.k = "exc"    -> Dl(X, f.d, Fr("exc", r, f.x))
       [] f.k = "lone"   -> Dl(X, f.d, Fr("head", r, 0))
       [] f.k = "frag"   -> Dl(Dl(X, f.d, Fr("head", r, 0)), f.d2, Fr(f.x, r, 0))
       [] f.k = "pclose" -> Dl(X, f.d, Fr("pclose", 0, 0))
+      \* an orderly close of the peer (FIN): eof_received() runs before connection_lost; datagram sockets have none
+      [] f.k = "eof"    -> Dl(X, f.d, Fr(IF Kind = "udp" THEN "pclose" ELSE "eof", 0, 0))
       [] f.k = "err"    -> Dl(X, f.d, Fr(IF Kind = "udp" THEN "err" ELSE "pclose", 0, f.x))
 
 (***************************************************************************)
@@ -360,6 +365,13 @@ Io(X, tr, f) ==
     IF tr \notin X.s.open THEN X       \* the transport is closing: nothing is delivered any more
     ELSE CASE f.what = "pclose" ->
                 CallSoon(Emit([X EXCEPT !.s.open = @ \ {tr}], [Ev("PEERCLOSE") EXCEPT !.tr = tr]), CbLost(tr))
+           [] f.what = "eof" ->
+                \* eof_received(): _close_transport() at once (the protocol's CURRENT transport), then - eof_received returned
+                \* None - the loop closes the transport that got the FIN
+                LET X1 == CloseTransport(Emit(X, [Ev("PEERCLOSE") EXCEPT !.tr = tr])) IN
+                  IF tr \in X1.s.open
+                  THEN CallSoon(Emit([X1 EXCEPT !.s.open = @ \ {tr}], [Ev("CLOSE") EXCEPT !.tr = tr]), CbLost(tr))
+                  ELSE X1
            [] f.what = "err" -> ErrorReceived(Emit(X, [Ev("ERR") EXCEPT !.tr = tr]), f)
            [] OTHER -> Received(Emit(X, [Ev("DLV") EXCEPT !.tr = tr, !.f = f]), tr, f)
 
